@@ -944,6 +944,282 @@ def run_radfn(ctx, w, K, n):
             ctx.fail('C03:RadiationFunction:window-integral', 'sum(bins)*delta = %r, phi/4pi = %r' % (tot, phi / (4 * PI)), desc)
 
 
+# ------------------------------------------------------------------------------------------------------------------
+#  round 6b: probes that may take the interpreter down run in a child process (one per model class, in parallel)
+# ------------------------------------------------------------------------------------------------------------------
+CHILD = r"""
+import sys, json
+from raysect.core import Point3D, Vector3D
+from raysect.optical import Spectrum
+from cherab.core import Plasma, Species
+from cherab.core.distribution import DistributionFunction
+from cherab.core.atomic import (AtomicData, Line, ImpactExcitationPEC, RecombinationPEC, ThermalCXPEC, LineRadiationPower,
+                                ContinuumPower, CXRadiationPower, FreeFreeGauntFactor, deuterium, carbon, helium)
+from cherab.core.model import ExcitationLine, RecombinationLine, ThermalCXLine, TotalRadiatedPower, Bremsstrahlung
+
+def say(**k):
+    print('C03CHILD ' + json.dumps(k)); sys.stdout.flush()
+
+class Dist(DistributionFunction):
+    def __init__(self, n, t):
+        super().__init__(); self.n, self.t = n, t
+    def density(self, x, y, z): return self.n
+    def effective_temperature(self, x, y, z): return self.t
+    def bulk_velocity(self, x, y, z): return Vector3D(0, 0, 0)
+
+def mk(base, v, n):
+    class R(base):
+        def __init__(self): pass
+        if n == 3:
+            def evaluate(self, ne, te, td): return v * (1 + 1e-3 * te + 1e-3 * td)
+        else:
+            def evaluate(self, ne, te): return v * (1 + 1e-3 * te)
+    return R()
+
+class G(FreeFreeGauntFactor):
+    def __init__(self, v): self.v = v
+    def evaluate(self, z, te, wvl): return self.v
+
+class AD(AtomicData):
+    # every accessor counts as one call; call number `fail_at` (1-based) raises OSError once
+    def __init__(self, fail_at=None, gaunt=1.25):
+        self.fail_at, self.calls, self.gaunt = fail_at, 0, gaunt
+    def _c(self):
+        self.calls += 1
+        if self.fail_at is not None and self.calls == self.fail_at:
+            raise OSError('mock provider failure at accessor call %d' % self.calls)
+    def wavelength(self, ion, charge, transition): self._c(); return 529.0
+    def impact_excitation_pec(self, ion, charge, transition): self._c(); return mk(ImpactExcitationPEC, 1e-14, 2)
+    def recombination_pec(self, ion, charge, transition): self._c(); return mk(RecombinationPEC, 2e-15, 2)
+    def thermal_cx_pec(self, di, dc, ri, rc, transition): self._c(); return mk(ThermalCXPEC, 3e-15 * (1 + dc + 0.1 * di.atomic_number), 3)
+    def line_radiated_power_rate(self, ion, charge): self._c(); return mk(LineRadiationPower, 1e-32, 2)
+    def continuum_radiated_power_rate(self, ion, charge): self._c(); return mk(ContinuumPower, 2e-33, 2)
+    def cx_radiated_power_rate(self, ion, charge): self._c(); return mk(CXRadiationPower, 3e-33, 2)
+    def free_free_gaunt_factor(self): self._c(); return G(self.gaunt)
+
+def plasma():
+    p = Plasma()
+    p.electron_distribution = Dist(1e19, 50.0)
+    p.composition = [Species(deuterium, 0, Dist(1e17, 5.0)), Species(deuterium, 1, Dist(1e19, 40.0)),
+                     Species(helium, 1, Dist(2e17, 30.0)), Species(carbon, 5, Dist(3e17, 45.0)), Species(carbon, 6, Dist(1e17, 45.0))]
+    return p
+
+def build(kind, ad):
+    line = Line(carbon, 5, (8, 7))
+    if kind == 'exc': return ExcitationLine(line, plasma=plasma(), atomic_data=ad)
+    if kind == 'rec': return RecombinationLine(line, plasma=plasma(), atomic_data=ad)
+    if kind == 'cx': return ThermalCXLine(line, plasma=plasma(), atomic_data=ad)
+    if kind == 'trp': return TotalRadiatedPower(carbon, 5, plasma=plasma(), atomic_data=ad)
+    return Bremsstrahlung(plasma=plasma(), atomic_data=ad)
+
+def emit(m):
+    return [float(x) for x in m.emission(Point3D(0.1, 0.2, 0.3), Vector3D(0, 0, 1), Spectrum(520.0, 540.0, 8)).samples]
+
+kind = sys.argv[1]
+if kind == 'gprobe':
+    m = build('brems', AD(gaunt=1.25))
+    a = emit(m); say(step='first', samples=a)
+    m.gaunt_factor = G(2.5); b = emit(m); say(step='user', samples=b)
+    m.gaunt_factor = None; say(step='unset', held=m.gaunt_factor is not None)
+    c = emit(m); say(step='after-unset', samples=c)
+    m2 = build('brems', AD(gaunt=1.25)); a2 = emit(m2); m2.gaunt_factor = None; say(step='unset-direct')
+    say(step='after-unset-direct', samples=emit(m2))
+else:
+    fresh = emit(build(kind, AD()))
+    say(step='fresh', samples=fresh)
+    for fail_at in (1, 2, 3):
+        ad = AD(fail_at)
+        m = build(kind, ad)
+        try:
+            first = emit(m); raised = None
+        except Exception as e:
+            first = None; raised = type(e).__name__
+        say(step='first', fail_at=fail_at, raised=raised, reached=ad.calls >= fail_at)
+        try:
+            retry = emit(m); err = None
+        except Exception as e:
+            retry = None; err = type(e).__name__ + ': ' + str(e)[:80]
+        say(step='retry', fail_at=fail_at, samples=retry, error=err)
+say(step='done')
+"""
+
+
+def run_children(kinds):
+    """{kind: (return code, [records])}; the children run concurrently"""
+    import json
+    import subprocess
+    import sys
+    procs = {k: subprocess.Popen([sys.executable, '-c', CHILD, k], stdout=subprocess.PIPE, stderr=subprocess.PIPE, text=True) for k in kinds}
+    res = {}
+    for k, pr in procs.items():
+        try:
+            out, err = pr.communicate(timeout=300)
+        except subprocess.TimeoutExpired:
+            pr.kill()
+            out, err = pr.communicate()
+        recs = [json.loads(l[len('C03CHILD '):]) for l in out.splitlines() if l.startswith('C03CHILD ')]
+        res[k] = (pr.returncode, recs, err[-300:])
+    return res
+
+
+SIG_GAUNT_UNSET = 'C03:Bremsstrahlung.emission:gaunt_factor-unset-after-first-emission:crash'
+CHILD_CLASS = dict(exc='ExcitationLine', rec='RecombinationLine', cx='ThermalCXLine', trp='TotalRadiatedPower', brems='Bremsstrahlung')
+
+
+def run_isolated(ctx):
+    """S streams `gaunt-unset` and `failed-populate` (child processes).  Returns True when the gaunt_factor = None probe
+    passed (the in-process K stream gsel then makes that call too)."""
+    res = run_children(['gprobe'] + list(CHILD_CLASS))
+    # ---- gaunt_factor = None after the first emission: documented "the atomic_data is used"
+    rc, recs, err = res['gprobe']
+    by = {r['step']: r for r in recs}
+    ok = rc == 0 and 'done' in by
+    detail = 'child exit %r after step %r; %s' % (rc, recs[-1]['step'] if recs else None, err.strip().splitlines()[-1] if err.strip() else '')
+    if ok:
+        a, b, c, d = by['first']['samples'], by['user']['samples'], by['after-unset']['samples'], by['after-unset-direct']['samples']
+        ok = all(x > 0 for x in a) and all(close(y, 2 * x, 1e-12) for x, y in zip(a, b)) and \
+            all(close(x, y, 1e-12) for x, y in zip(a, c)) and all(close(x, y, 1e-12) for x, y in zip(a, d))
+        detail = 'provider factor %r, user factor (x2) %r, after gaunt_factor = None %r / %r' % (a[:2], b[:2], c[:2], d[:2])
+    ctx.case(key=('gaunt-unset',))
+    ctx.count('isolated:gaunt-unset:' + ('ok' if ok else 'FAILED'))
+    if not ok:
+        ctx.fail(SIG_GAUNT_UNSET, 'Bremsstrahlung(plasma, atomic_data): emission(); gaunt_factor = None; emission() must use the '
+                 "provider's Gaunt factor: " + detail,
+                 dict(model='Bremsstrahlung', stream='gaunt-unset', history=['eval', 'gaunt_factor = G', 'eval', 'gaunt_factor = None', 'eval']))
+    # ---- a provider accessor raises once during _populate_cache; the retry must behave like a fresh model
+    for k, name in CHILD_CLASS.items():
+        rc, recs, err = res[k]
+        fresh = next((r['samples'] for r in recs if r['step'] == 'fresh'), None)
+        for fail_at in (1, 2, 3):
+            first = next((r for r in recs if r['step'] == 'first' and r.get('fail_at') == fail_at), None)
+            retry = next((r for r in recs if r['step'] == 'retry' and r.get('fail_at') == fail_at), None)
+            desc = dict(model=name, stream='failed-populate', provider_raises='OSError at accessor call %d of the first emission, works afterwards' % fail_at,
+                        child_exit=rc)
+            if first is not None and not first['reached']:
+                ctx.count('isolated:failed-populate:%s:not-reached' % k)      # the model makes fewer accessor calls
+                ctx.case(key=None)
+                good = first['raised'] is None and retry is not None and retry['samples'] is not None and \
+                    all(close(x, y, 1e-12) for x, y in zip(retry['samples'], fresh))
+            else:
+                ctx.case(key=('failed-populate', k, fail_at))
+                good = fresh is not None and any(x > 0 for x in fresh) and first is not None and first['raised'] == 'OSError' and \
+                    retry is not None and retry['samples'] is not None and len(retry['samples']) == len(fresh) and \
+                    all(close(x, y, 1e-12) for x, y in zip(retry['samples'], fresh))
+            ctx.count('isolated:failed-populate:%s:%s' % (k, 'ok' if good else 'FAILED'))
+            if not good:
+                what = 'child died (exit %r) %s' % (rc, err.strip().splitlines()[-1] if err.strip() else '') if retry is None else \
+                    'first emission raised %r; retry %r; fresh model %r' % (first and first['raised'], retry.get('error') or (retry['samples'] or [])[:3], (fresh or [])[:3])
+                ctx.fail('C03:%s.emission:after-failed-populate:crashed-or-differs-from-fresh' % name, what, desc)
+    return by.get('after-unset-direct') is not None and rc is not None and res['gprobe'][0] == 0
+
+
+def run_gaunt_select(ctx, w, K, n, unset_is_safe=True):
+    """round 6 (K, `gsel`): which Gaunt factor a Bremsstrahlung instance evaluates with after a random history of
+    `gaunt_factor = G | None`, `atomic_data = A | None`, `plasma = P`, change notifications and emission() calls, against
+    Model/BremsConfig.lean.  The Gaunt factor actually used is read off the emitted value (constant factors: user k -> k,
+    provider a -> 100 + a; the emission is linear in it).  Every call is made on the real code, including emission after
+    `gaunt_factor = None` on an instance whose arrays are cached — unless the child-process probe of exactly that history
+    (`run_isolated`) failed (`unset_is_safe` False: a regression to the pre-7210ef7 source, where the call is a segmentation
+    fault); only then a history ends where the model predicts the call through None."""
+    rng = ctx.rng
+    pt, dr = w.Point3D(0, 0, 0), w.Vector3D(0, 0, 1)
+    par = (1.0, 0.0, 0.0, 0.0)
+
+    def plasma():
+        pl = w.Plasma()
+        pl.electron_distribution = w.Dist(1e19, 10.0)
+        pl.composition = [w.Species(w.elements[2], 1, w.Dist(1e19, 10.0)), w.Species(w.elements[2], 0, w.Dist(1e18, 1.0))]
+        return pl
+
+    def emit(m):
+        sp = w.Spectrum(500.0, 510.0, 1)
+        return float(m.emission(pt, dr, sp).samples[0])
+    unit = emit(w.cm.Bremsstrahlung(plasma=plasma(), gaunt_factor=w.Gaunt((1.0, 0.0, 0.0, 0.0))))
+
+    def tok_of_value(v):
+        k = int(round(v))
+        if k < 1 or abs(v - k) > 1e-9 * k:
+            return 'x%r' % v
+        return 'u%d' % k if k < 100 else 'p%d' % (k - 100)
+
+    def gtok(m):
+        g = m.gaunt_factor
+        return '-' if g is None else tok_of_value(g(1.0, 1.0, 1.0))
+
+    def rnd_op(p_unset):
+        r = rng.random()
+        if r < 0.40:
+            return 'E'
+        if r < 0.40 + p_unset:
+            return 'G0'
+        if r < 0.62:
+            return 'G%d' % rng.randint(1, 9)
+        if r < 0.76:
+            return 'A%d' % rng.choice([0, 1, 2, 3, 4, rng.randint(1, 9)])
+        if r < 0.84:
+            return 'P'
+        return 'C'
+
+    hist = []
+    for it in range(n):
+        p_unset = rng.choice([0.0, 0.03, 0.10, 0.15])
+        init = (rng.choice([1, 1, 1, 0]), rng.choice([0, 1, 2, 3]), rng.choice([0, 0, 5, 6]))
+        ops = [rnd_op(p_unset) for _ in range(rng.randint(1, 14))]
+        if it < 3:      # fixed: documented order of the two RuntimeErrors; the witness of brems_gaunt_unset_after_use_null_deref
+            init, ops = [(0, 0, 0), (1, 0, 0), (1, 1, 0)][it], [['E', 'P', 'E', 'A3', 'E'], ['E', 'G4', 'E', 'G0', 'E'], ['E', 'G0', 'E']][it]
+        hist.append((init, ops))
+    pred = ctx.driver(['gsel %d %d %d %s' % (i + tuple([' '.join(o)])) for i, o in hist])
+    for (init, ops), pr in zip(hist, pred):
+        ptoks = pr.split()
+        if len(ptoks) != len(ops):
+            ctx.broke('correspondence', 'C03 stream gsel', dict(init=init, ops=ops, model=pr[:200]))
+            continue
+        cut = None if unset_is_safe else next((i for i, t in enumerate(ptoks) if t.startswith('null')), None)
+        if cut is not None:
+            ops = ops[:cut + 1]
+            ctx.count('gsel:history-ends-at-predicted-call-through-None')
+        ads = {}
+
+        def ad(a):
+            if a == 0:
+                return None
+            if a not in ads:
+                ads[a] = w.MockAD(par, gaunt=(100.0 + a, 0.0, 0.0, 0.0))
+            return ads[a]
+        pl = plasma() if init[0] else None
+        m = w.cm.Bremsstrahlung(plasma=pl, atomic_data=ad(init[1]),
+                                gaunt_factor=w.Gaunt((float(init[2]), 0.0, 0.0, 0.0)) if init[2] else None)
+        obs = []
+        for i, op in enumerate(ops):
+            out = 'ok'
+            if op == 'E':
+                if cut is not None and i == cut:
+                    obs.append(ptoks[i])        # not executed (would take the interpreter down)
+                    continue
+                try:
+                    out = tok_of_value(emit(m) / unit)
+                except RuntimeError as e:
+                    out = 'np' if 'plasma object' in str(e) else 'na' if 'atomic data' in str(e) else 'err:' + str(e)[:40]
+            elif op[0] == 'G':
+                k = int(op[1:])
+                m.gaunt_factor = w.Gaunt((float(k), 0.0, 0.0, 0.0)) if k else None
+            elif op[0] == 'A':
+                m.atomic_data = ad(int(op[1:]))
+            elif op == 'P':
+                pl = plasma()
+                m.plasma = pl
+            elif op == 'C':
+                if pl is not None and rng.random() < 0.7:
+                    pl.notifier.notify()
+                else:
+                    m._change()
+            obs.append('%s:%s' % (out, gtok(m)))
+        desc = dict(model='Bremsstrahlung', stream='gaunt-selection', init=dict(plasma=init[0], atomic_data=init[1], gaunt_factor=init[2]), ops=ops)
+        K.add('gsel', 'gsel %d %d %d %s' % (init + (' '.join(ops),)), ' '.join(obs), desc)
+        ctx.count('gsel:evals=%d' % min(4, ops.count('E')))
+        ctx.case(key=('gsel', init, tuple(ops)) if 'E' in ops else None)
+
+
 def run_end_to_end(ctx, w, n):
     """observe_at #2: Ray.trace through a slab of known length; line models with the default GaussianLine"""
     from cherab.tools.plasmas.slab import build_constant_slab_plasma
@@ -1503,6 +1779,10 @@ def compare(ctx, K, outs):
             t = o.split()
             agree = len(t) == 2 and (br is None or t[0] == str(br)) and (br is None or close(b2f(t[1]), val, 1e-9, 1e-12))
             shown = 'branch %s value %r' % (br, val)
+        elif kind == 'gsel':      # model tokens are out:gaunt:userProvided:loaded; the last two are not observable from Python
+            mt = [t.split(':') for t in o.split()]
+            agree = [':'.join(t[:2]) for t in mt] == [':'.join(t.split(':')[:2]) for t in obs.split()]
+            shown = obs
         elif isinstance(obs, str):
             agree = (o == obs)
             shown = obs
@@ -1543,8 +1823,9 @@ def run(ctx):
                         'accuracy of the Gauss-Legendre bin integral and Gaunt-factor table values are checked by S only (partial)']
     gen = tr_constants.generate()
     ctx.extra['translated'] = dict(cx_density_guard=gen['cx_density_guard'], cx_temperature_guard=gen['cx_temperature_guard'],
-                                   trp_hydrogen=gen['trp_hydrogen'], constants=len(gen['literals']))
-    ctx.lean_check(['Cherab.Props.C03'], 'Cherab/Audit/C03.lean')
+                                   trp_hydrogen=gen['trp_hydrogen'], constants=len(gen['literals']),
+                                   brems_guard_tests_gaunt=gen['brems_guard_tests_gaunt'])
+    ctx.lean_check(['Cherab.Props.C03', 'Cherab.Props.C03Gaunt'], 'Cherab/Audit/C03.lean')
 
     w = World_.get()
     K = Cases(ctx)
@@ -1555,6 +1836,8 @@ def run(ctx):
     run_brems(ctx, w, K, ctx.n(300, 4000))
     run_gaunt(ctx, w, K, ctx.n(800, 10000))
     run_radfn(ctx, w, K, ctx.n(60, 600))
+    unset_ok = run_isolated(ctx)
+    run_gaunt_select(ctx, w, K, ctx.n(400, 6000), unset_is_safe=unset_ok)
     run_end_to_end(ctx, w, ctx.n(4, 40))
     run_reeval(ctx, w, K, ctx.n(250, 4000))
     run_multipoint(ctx, w, K, ctx.n(200, 3000))
